@@ -199,8 +199,8 @@ pub fn defs() -> Vec<CheckDef> {
         CheckDef {
             id: "C13",
             level: "exploration",
-            runs_quick: 1_000_000,
-            runs_thorough: 40_000_000,
+            runs_quick: 2_500_000,
+            runs_thorough: 60_000_000,
             block: 2048,
             gen: gen_c13,
             exec: crate::proto::exec_inflate_proto,
@@ -212,8 +212,8 @@ pub fn defs() -> Vec<CheckDef> {
         CheckDef {
             id: "C14",
             level: "exploration",
-            runs_quick: 650_000,
-            runs_thorough: 12_000_000,
+            runs_quick: 1_500_000,
+            runs_thorough: 30_000_000,
             block: 2048,
             gen: gen_c14,
             exec: crate::proto::exec_deflate_proto,
